@@ -37,6 +37,9 @@ type C06Case struct {
 	TrickleN   int           `json:"trickle_n"`
 	Seg        []int         `json:"seg"`
 	GapMs      int           `json:"gap_ms"`
+	// >0: the serving context is cancelled at this (fake) time, as when the listener the connection came in on is
+	// closed by a reload; the connection is still owed the full silence
+	CancelAtMs int `json:"cancel_at_ms,omitempty"`
 }
 
 func genC06(maxKeys int) func(t *rapid.T) C06Case {
@@ -66,6 +69,9 @@ func genC06(maxKeys int) func(t *rapid.T) C06Case {
 		c.TrickleN = rapid.IntRange(1, 40).Draw(t, "trickleN")
 		c.Seg = rapid.SliceOfN(rapid.SampledFrom([]int{1, 2, 16, 31, 32, 33, 49, 50, 51, 100}), 0, 4).Draw(t, "seg")
 		c.GapMs = rapid.SampledFrom([]int{0, 0, 1, 3000, 9000}).Draw(t, "gap")
+		if rapid.IntRange(0, 3).Draw(t, "cancel") == 0 {
+			c.CancelAtMs = rapid.SampledFrom([]int{1, 500, 20000, 58999}).Draw(t, "cancelAt")
+		}
 		return c
 	}
 }
@@ -92,8 +98,14 @@ func presentInBubble(h service.StreamHandler, rec *kit.RecTCPConn, c C06Case, wi
 	var mu sync.Mutex
 	start := time.Now()
 	done := make(chan struct{})
+	ctx := context.Background()
+	if c.CancelAtMs > 0 {
+		var cancel context.CancelFunc
+		ctx, cancel = context.WithCancel(ctx)
+		go func() { time.Sleep(time.Duration(c.CancelAtMs) * time.Millisecond); cancel() }()
+	}
 	go func() {
-		h.Handle(context.Background(), srv, rec)
+		h.Handle(ctx, srv, rec)
 		mu.Lock()
 		out.returned, out.returnedAt = true, time.Since(start)
 		mu.Unlock()
@@ -272,7 +284,7 @@ func c06InBubble(c C06Case, info *kit.Info) *kit.Finding {
 			relays = true
 		}
 	}
-	info.Class("kind:"+c.Kind, "client:"+c.Client, fmt.Sprintf("auth:%v", auth))
+	info.Class("kind:"+c.Kind, "client:"+c.Client, fmt.Sprintf("auth:%v", auth), fmt.Sprintf("ctx-cancelled-meanwhile:%v", c.CancelAtMs > 0))
 	if relays {
 		// a complete valid request: not a probe; outside this property
 		info.Class("relays(not judged)")
